@@ -17,6 +17,7 @@ func start(t *testing.T, id, level, rule string) (*hx.Env, *hx.Recorder) {
 	if err := os.MkdirAll(env.Work, 0o755); err != nil {
 		t.Fatal(err)
 	}
+	env.InitScratchCache()
 	rec := hx.NewRecorder(env, level, rule)
 	return env, rec
 }
